@@ -9,6 +9,14 @@ count- and length-field inflation, record-type confusion) and hands them to
   (2) DNSDatagramProtocol.datagramReceived (with and without a pending query),
   (3) DNSProtocol.dataReceived as a length-prefixed TCP stream under tape-chosen
       segmentation (and damaged length prefixes).
+Each of the three is ONE long-lived decoder/protocol instance that receives the
+run's traffic back to back: every (damaged) packet, in some runs preceded by an
+intact message (its own original, i.e. same layout and name offsets, or another
+one) and in some runs delivered twice; the consumer either drops each decoded
+message at once or retains it to the end of the run (decides which objects die
+between two decodes).  The harness does no bookkeeping between two deliveries,
+so what a decode inherits from the previous one (class-level or identity-keyed
+leftovers) is the same in a search run and in its replay.
 Oracle: fromStr returns or raises EOFError/ValueError, nothing else; the UDP
 protocol never raises; the TCP protocol never raises anything but what it
 treats as a malformed packet (EOFError/ValueError propagate to the transport,
@@ -17,6 +25,7 @@ RUN_WALL_LIMIT_S (a trip of the watchdog is a violation of "terminates").
 """
 import os
 import struct
+from io import BytesIO
 
 from twisted.names import dns
 
@@ -25,10 +34,11 @@ ENGINE = "net"
 LEVEL = "exploration"
 TECHNIQUE = ("deterministic simulation: real-encoder DNS messages + seeded network faults (corruption, truncation, splicing, "
              "pointer cycles, length inflation, segmentation) delivered to the real decoders; exception-type and watchdog oracle")
-QUICK_RUNS = 50000
+QUICK_RUNS = 36000
 TWIN_P = 0.08   # this share of the runs drives two independent instances of the scenario one after the other (detsim.runner._run_scenario)
 BATCH = 300
 RUN_WALL_LIMIT_S = 4
+SHRINK_BUDGET_S = 60   # a hanging candidate costs RUN_WALL_LIMIT_S of CPU each
 HANG_IS_VIOLATION = True
 COMPONENTS = {
     "real": ["twisted.names.dns.Message.encode/toStr (input generator)", "twisted.names.dns.Message.fromStr/decode/parseRecords",
@@ -37,12 +47,23 @@ COMPONENTS = {
     "stub": ["UDP transport / TCP transport (record writes only)", "controller (records messageReceived)",
              "network: damage operators and TCP segmentation (tape)", "dns.randomSource (tape-driven query id)"],
 }
-RULE = ("run = 1..3 messages built with the real encoder from a tape-chosen record mix, 0..4 tape-chosen damage operators each, "
-        "delivered to fromStr, to the UDP protocol and (framed, segmented) to the TCP protocol; "
-        "non-trivial = at least one damage operator or a TCP segmentation cut actually fired")
+RULE = ("run = 1..3 messages built with the real encoder from a tape-chosen record mix (names partly nested under earlier names of "
+        "the run, so that compression pointers chain), 0..4 tape-chosen damage operators each (pointer rewrites include chains "
+        "of 1..4 pointers closing on any element: self loops, cycles through the start, rho shapes); "
+        "traffic = those packets in order, each with p=0.4 preceded by an intact message (75% its own undamaged original) and "
+        "with p=0.12 delivered twice; the traffic is delivered back to back to fromStr, to one UDP protocol instance and "
+        "(framed, segmented) to one TCP protocol instance; the consumer retains every decoded message in half of the runs and "
+        "drops it at once in the others; non-trivial = at least one damage operator or a TCP segmentation cut actually fired")
 ASSUMPTIONS = [
     "EOFError/ValueError escaping DNSProtocol.dataReceived are what the TCP protocol treats as a malformed packet (the transport drops the connection): no verdict",
-    "packets are at most a few KiB; the watchdog is wall-clock (RUN_WALL_LIMIT_S per run, normal runs take < 1 ms)",
+    "packets are at most a few KiB; the watchdog is CPU time (RUN_WALL_LIMIT_S per run, normal runs take about 1 ms)",
+    "every run and every stage starts with one decode of a fixed plain query from a buffer that stays alive for the run, so that "
+    "decoder memory of 'the previous buffer' never refers to an earlier run or stage (warm workers); leakage between two "
+    "instances of the whole scenario is covered by the twin-instance runs (TWIN_P)",
+    "behaviour that depends on CPython handing a freed object's address to the next object of the same size is reproduced "
+    "because nothing but the code under test and the consumer allocates between two deliveries; a residual dependence on the "
+    "heap layout of the interpreter (about 1 decode in 1000) can make such a violation fail to replay, which the runner "
+    "reports as a harness error, never as a violation",
 ]
 LEVEL_NOTE = "input space sampled by seeded mutation of real encodings; not coverage-guided"
 
@@ -52,8 +73,21 @@ BYTEVALS = [0x00, 0xFF, 0xC0, 0xC1, 0x3F, 0x40, 0x80, 0x01, 0x0C, 0x7F]
 
 
 def _name(sim):
-    n = sim.draw_int(0, 4, "nlabels")
-    return b".".join(sim.draw_choice(LABELS, "label") for _ in range(n))
+    """A name of 0..4 labels, or (as the names of one zone do) 0..2 new labels in front of a name used earlier in the
+    run: shared suffixes are what the encoder turns into compression pointers, and chains of them (a pointer into a
+    name that itself ends in a pointer) when the sharing is nested."""
+    earlier = sim.c33_names
+    if earlier and sim.draw_bool(0.4, "under_earlier_name"):
+        base = sim.draw_choice(earlier, "earlier")
+        n = sim.draw_int(0, 2, "nlabels")
+        name = b".".join([sim.draw_choice(LABELS, "label") for _ in range(n)] + ([base] if base else []))
+        sim.probe("name_under_earlier_name")
+    else:
+        n = sim.draw_int(0, 4, "nlabels")
+        name = b".".join(sim.draw_choice(LABELS, "label") for _ in range(n))
+    if name and len(name) < 150 and len(earlier) < 12:
+        earlier.append(name)
+    return name
 
 
 def _blob(sim, hi):
@@ -156,9 +190,24 @@ def damage(sim, data, others):
         if n >= 14:
             sites = [12] + [i for i in range(12, n - 1) if b[i] >= 0xC0]
             i = sim.draw_choice(sites, "site") if sim.draw_bool(0.8, "known_site") else sim.draw_int(12, n - 2, "site")
-            tk = sim.draw_choice(["self", "other", "first", "forward", "end", "beyond", "header", "any"], "target")
+            tk = sim.draw_choice(["self", "other", "first", "forward", "end", "beyond", "header", "any", "chain"], "target")
             if tk == "self":
                 t = i
+            elif tk == "chain":
+                # a tail of pointers leading into a cycle: site i -> s1 -> ... -> s(L-1) -> one of s0..s(L-1)
+                # (closing on s0 is a plain cycle through the start, closing later gives a rho shape)
+                chain = [i]
+                for _ in range(sim.draw_int(1, 3, "chainlen")):
+                    j = sim.draw_choice(sites, "hop") if sim.draw_bool(0.5, "known_hop") else sim.draw_int(12, n - 2, "hop")
+                    if j not in chain and j - 1 not in chain and j + 1 not in chain:
+                        chain.append(j)
+                close = chain[sim.draw_int(0, len(chain) - 1, "close")]
+                for a, nxt in zip(chain[1:], chain[2:] + [close]):
+                    b[a] = 0xC0 | ((nxt >> 8) & 0x3F)
+                    b[a + 1] = nxt & 0xFF
+                t = chain[1] if len(chain) > 1 else close
+                if close != i:
+                    sim.probe("pointer_chain_rho")
             elif tk == "other":
                 j = sim.draw_choice(sites, "site2")
                 t = j
@@ -204,11 +253,14 @@ def damage(sim, data, others):
 
 
 class Controller:
-    def __init__(self):
+    def __init__(self, keep=None):
         self.got = []
+        self.keep = keep
 
     def messageReceived(self, m, proto, addr=None):
         self.got.append(m.id)
+        if self.keep is not None:
+            self.keep.append(m)
 
     def connectionMade(self, proto):
         pass
@@ -262,8 +314,33 @@ class FrameMirror:
 
 
 ALLOWED = (EOFError, ValueError)
+WARMUP = b"\x00\x00\x00\x00\x00\x01\x00\x00\x00\x00\x00\x00\x01a\x00\x00\x01\x00\x01"   # a plain query for "a" IN A, no compression
+
+
+def _answered(result, fired, kept):
+    fired.append(type(result).__name__)
+    if kept is not None:
+        kept.append(result)
 # dev-time: VERIF_C33_AVOID=1 keeps every run away from the split-length-prefix finding so that mutant runs see past it
 ALWAYS_AVOID = os.environ.get("VERIF_C33_AVOID", "0") == "1"
+
+
+def _traffic(sim, valid, packets):
+    """The order in which messages reach one long-lived decoder / protocol instance: every (possibly damaged) packet, in
+    some runs preceded by an intact message (its own original - same layout, same name offsets - or another one of the run)
+    and in some runs delivered twice (datagram duplication)."""
+    seq = []
+    for i, data in enumerate(packets):
+        if sim.draw_bool(0.4, "intact_first"):
+            j = i if sim.draw_bool(0.75, "own_original") else sim.draw_int(0, len(valid) - 1, "which")
+            seq.append(("v%d" % j, valid[j]))
+            if valid[j] != data:
+                sim.fault("intact_then_tampered")
+        seq.append(("p%d" % i, data))
+        if sim.draw_bool(0.12, "duplicate"):
+            seq.append(("p%d" % i, data))
+            sim.fault("duplicate_delivery")
+    return seq
 
 
 def run(sim):
@@ -271,9 +348,28 @@ def run(sim):
     avoid_split_prefix = sim.draw_bool(0.1, "avoid_split_prefix") or ALWAYS_AVOID
     pend_udp = sim.draw_bool(0.3, "pending_udp_query")
     pend_tcp = sim.draw_bool(0.3, "pending_tcp_query")
-    sim.config = {"npackets": npk, "avoid_split_prefix": avoid_split_prefix, "pending_udp": pend_udp, "pending_tcp": pend_tcp}
+    # what the consumer does with a decoded message: drop it at once, or keep it (a cache, a pending-answer table) for
+    # the rest of the run - decides which objects die between two decodes
+    retain = sim.draw_bool(0.5, "retain_messages")
+    kept = [] if retain else None
+    sim.config = {"npackets": npk, "avoid_split_prefix": avoid_split_prefix, "pending_udp": pend_udp, "pending_tcp": pend_tcp,
+                  "retain": retain}
+
+    # Run/stage isolation: workers are warm interpreters, so whatever the decoder remembers about "the buffer decoded
+    # last" would otherwise refer to a buffer of the PREVIOUS run (not replayable), and between two stages the harness
+    # logs (a replay keeps those lines, a search run does not).  One decode of a fixed plain query from a buffer that
+    # stays alive for the whole run, at the start of the run and of every stage, puts that memory into a state that is a
+    # function of this stage's deliveries alone.
+    warm = BytesIO(WARMUP)
+
+    def isolate():
+        warm.seek(0)
+        dns.Message().decode(warm)
+
+    isolate()
 
     # ---------------------------------------------------------------- inputs
+    sim.c33_names = []
     ids = [sim.draw_choice([0, 1, 0x1234, 0xFFFF, 77], "id") for _ in range(npk)]
     valid = []
     for i in range(npk):
@@ -289,31 +385,56 @@ def run(sim):
             ndamage += 1
             sim.event("damage", i, op, len(data))
         packets.append(data)
+    traffic = _traffic(sim, valid, packets)
+    sim.event("traffic", *[tag for tag, _ in traffic])
+
+    # Inside the three delivery loops below the harness does NO bookkeeping (no sim.event/probe/state): outcomes are
+    # collected and logged after the loop.  Between two decodes only the code under test and the consumer allocate and
+    # free, exactly as in a reactor that reads datagram after datagram - so behaviour that depends on which objects died
+    # in between (object identities being handed out again) is the same in a search run and in its replay, which keeps a trace.
 
     # ---------------------------------------------------------------- (1) the decoder itself
-    for i, data in enumerate(packets):
+    sim.event("stage", "fromStr")
+    isolate()
+    outcomes = []
+    for tag, data in traffic:
         m = dns.Message()
         try:
             m.fromStr(data)
-            sim.event("fromStr", i, "message")
-            sim.probe("decoded")
-            sim.state("decoded:%d/%d/%d/%d" % (min(len(m.queries), 3), min(len(m.answers), 3), min(len(m.authority), 3), min(len(m.additional), 3)))
         except ALLOWED as e:
-            sim.event("fromStr", i, type(e).__name__)
-            sim.probe("rejected_" + type(e).__name__)
+            outcomes.append(type(e).__name__)
+            continue
         except Exception as e:
             sim.fail("fromStr-raised", type(e).__name__,
                      "Message.fromStr raised %s: %s on %d-byte packet %s" % (type(e).__name__, str(e)[:120], len(data), data.hex()[:400]))
+        outcomes.append(m)
+        if kept is not None:
+            kept.append(m)
+    prev = ""
+    for (tag, _), m in zip(traffic, outcomes):
+        if isinstance(m, str):
+            sim.event("fromStr", tag, m)
+            sim.probe("rejected_" + m)
+            if prev.startswith("v"):
+                sim.probe("rejected_right_after_intact")
+        else:
+            sim.event("fromStr", tag, "message")
+            sim.probe("decoded")
+            sim.state("decoded:%d/%d/%d/%d" % (min(len(m.queries), 3), min(len(m.answers), 3), min(len(m.authority), 3), min(len(m.additional), 3)))
+        prev = tag
+    del outcomes, m
 
     # ---------------------------------------------------------------- (2) UDP protocol
-    ctl = Controller()
+    sim.event("stage", "udp")
+    isolate()
+    ctl = Controller(kept)
     udp = dns.DNSDatagramProtocol(ctl, reactor=sim.clock)
     udp.makeConnection(RecTransport())
     fired = []
     if pend_udp:
         d = udp.query(("10.0.0.9", 53), [dns.Query(b"example.com", dns.A, dns.IN)], timeout=10, id=ids[0])
-        d.addBoth(lambda r: fired.append(type(r).__name__))
-    for i, data in enumerate(packets):
+        d.addBoth(_answered, fired, kept)
+    for tag, data in traffic:
         try:
             udp.datagramReceived(data, ("10.0.0.9", 53))
         except Exception as e:
@@ -326,7 +447,9 @@ def run(sim):
         dc.cancel()
 
     # ---------------------------------------------------------------- (3) TCP protocol
-    ctl2 = Controller()
+    sim.event("stage", "tcp")
+    isolate()
+    ctl2 = Controller(kept)
     tcp = dns.DNSProtocol(ctl2, reactor=sim.clock)
     tcp.makeConnection(RecTransport())
     fired2 = []
@@ -337,10 +460,10 @@ def run(sim):
             d = tcp.query([dns.Query(b"example.com", dns.A, dns.IN)], timeout=60)
         finally:
             dns.randomSource = old
-        d.addBoth(lambda r: fired2.append(type(r).__name__))
+        d.addBoth(_answered, fired2, kept)
     stream = bytearray()
     bounds = []
-    for i, data in enumerate(packets):
+    for tag, data in traffic:
         ln = len(data) & 0xFFFF
         data = data[:0xFFFF]
         if sim.draw_bool(0.15, "bad_prefix"):
@@ -356,6 +479,7 @@ def run(sim):
 
     pieces = net.cut(sim, bytes(stream), boundaries=[0, 1, 2] + bounds + [b + 1 for b in bounds] + [b + 2 for b in bounds])
     mirror = FrameMirror()
+    deliveries = []
     k = 0
     while k < len(pieces):
         piece = pieces[k]
@@ -370,27 +494,37 @@ def run(sim):
                     del pieces[k]
             else:
                 piece = piece[:-1]
-            sim.probe("split_prefix_avoided")
+            deliveries.append(-1)
             if not piece:
                 continue
         hazard = mirror.feed(piece)
-        sim.event("tcp", "deliver", len(piece))
+        deliveries.append(len(piece))
         try:
             tcp.dataReceived(piece)
         except ALLOWED as e:
-            sim.event("tcp", "malformed", type(e).__name__)
-            sim.probe("tcp_malformed_" + type(e).__name__)
+            deliveries.append(type(e).__name__)
             break   # the transport logs the error and drops the connection
         except Exception as e:
             w = type(e).__name__ + (":one-byte-of-length-prefix-buffered" if hazard else "")
             sim.fail("tcp-dataReceived-raised", w,
                      "DNSProtocol.dataReceived raised %s: %s (delivery of %d bytes, %d bytes of a length prefix buffered: %s)"
                      % (type(e).__name__, str(e)[:120], len(piece), 1 if hazard else 0, hazard))
+    for x in deliveries:
+        if x == -1:
+            sim.probe("split_prefix_avoided")
+        elif isinstance(x, int):
+            sim.event("tcp", "deliver", x)
+        else:
+            sim.event("tcp", "malformed", x)
+            sim.probe("tcp_malformed_" + x)
     sim.event("tcp", "controller", len(ctl2.got), "fired", *fired2)
     if fired2:
         sim.probe("tcp_pending_query_answered")
     for dc in sim.clock.getDelayedCalls():
         dc.cancel()
+    del warm
+    if kept:
+        sim.probe("consumer_retained_messages", len(kept))
     sim.nontrivial = bool(ndamage or sim.faults.get("segmentation") or sim.faults.get("type_confusion"))
 
 
@@ -402,4 +536,11 @@ MUTANTS = [
     "readPrecisely: never raises EOFError (short reads reach struct.unpack/ord) -> CAUGHT (fromStr-raised:error / fromStr-raised:TypeError)",
     "Charstr.decode: `ord(strio.read(1))` instead of readPrecisely -> CAUGHT (fromStr-raised:TypeError)",
     "DNSDatagramProtocol.datagramReceived: ValueError/BaseException handlers narrowed to KeyError -> CAUGHT (udp-datagramReceived-raised:ValueError)",
+    "seeded C33-visited-only-first (only the first jump target is remembered: rho-shaped pointer chains spin) -> CAUGHT "
+    "(terminates:watchdog; about 1 run in 330 since the pointer-chain operator and nested names, 1 in 12000 before)",
+    "seeded C33-r4a (Name.decode skips the loop check for pointer targets remembered as terminating 'in this buffer', the buffer being "
+    "recognised by id(strio): an intact compressed message followed by a tampered copy whose cycle passes through one of its name "
+    "offsets, with the first buffer's address handed to the second) -> CAUGHT (terminates:watchdog; needs the intact-then-tampered "
+    "traffic; about 1 run in 120)",
+    "same change with the buffer recognised by its length instead of its address (intact message, then a same-length tampered copy) -> CAUGHT (terminates:watchdog)",
 ]
